@@ -28,6 +28,9 @@ type input struct {
 	// asm
 	Cfg   *memasm.Config `json:"cfg,omitempty"`
 	Every int            `json:"every,omitempty"`
+	// Dense: the directory is sampled after EVERY handled event and every
+	// distinct state is kept (directed window sweeps on small directories).
+	Dense bool `json:"dense,omitempty"`
 }
 
 type obs struct {
@@ -42,6 +45,7 @@ type obs struct {
 }
 
 const maxSnaps = 48
+const maxDense = 700
 
 func runAsm(in input) (hx.Case, error) {
 	a := memasm.Build(*in.Cfg)
@@ -64,6 +68,9 @@ func runAsm(in input) (hx.Case, error) {
 			}
 		}
 		nSampled++
+		if in.Dense {
+			return
+		}
 		if len(snaps) >= maxSnaps { // decimate: the samples keep covering the whole run
 			k := 0
 			for i := 0; i < len(snaps); i += 2 {
@@ -75,7 +82,11 @@ func runAsm(in input) (hx.Case, error) {
 		}
 	}
 	a.OnEvent(func(n int) {
-		if n%every == 0 {
+		if in.Dense {
+			if len(snaps) < maxDense {
+				take()
+			}
+		} else if n%every == 0 {
 			take()
 		}
 		// hint: a plain-Go replica of dir_wf looks at EVERY state; a state it
@@ -111,6 +122,9 @@ func runAsm(in input) (hx.Case, error) {
 	}
 	if nctrl > 0 {
 		c.Tags = append(c.Tags, "asm:with-control")
+	}
+	if in.Dense {
+		c.Tags = append(c.Tags, "asm:window-sweep")
 	}
 	// non-trivial: at least 8 distinct directory states were observed
 	c.Nontrivial = len(snaps) >= 8
@@ -297,6 +311,69 @@ func ctrlize(r *hx.Rand, cfg *memasm.Config) {
 	cfg.Script = out
 }
 
+// windowSweep builds a directed run: pairs of accesses to the SAME line
+// (different bytes, so both may be in flight), the second issued g agent ticks
+// after the first, g sweeping every value of 0..maxGap, each pair on a fresh
+// line. With recool, the cache is paused, fully invalidated and re-enabled at a
+// barrier before every pair, so that the first access of every pair lands in
+// an invalid way (otherwise only the first pairs find the cache cold). With
+// ctrlInWindow the pause / invalidate / enable is issued inside the window
+// (between the two accesses, among the live fill) instead.
+func windowSweep(r *hx.Rand, kind string, recool, ctrlInWindow bool) memasm.Config {
+	lb := uint64(4 + r.Intn(3))
+	line := uint64(1) << lb
+	cc := memasm.RandomCache(r, kind, lb)
+	cc.BankLatency = []int{1, 2, 5, 8}[r.Intn(4)]
+	cc.PortBuf = 4
+	cc.MSHR = 2 + r.Intn(3)
+	if recool || ctrlInWindow {
+		cc.Sets, cc.Ways = 1+r.Intn(2), 2
+	} else {
+		cc.Sets, cc.Ways = 8, 4
+	}
+	m := memasm.MemCfg{Kind: "ideal", NumModules: 1, Latency: []int{0, 1, 3}[r.Intn(3)], Width: 2, PortBuf: 4}
+	if r.Chance(1, 4) {
+		m = memasm.RandomMem(r, "banked", 64)
+		m.NumModules = 1
+	}
+	cfg := memasm.Config{Caches: []memasm.CacheCfg{cc}, Mem: m,
+		Agent: memasm.AgentCfg{MaxInflight: 4, IssueWidth: 1, PortBuf: 4}}
+	maxGap := 14 + cc.DirLatency + cc.BankLatency + 2*m.Latency + m.PipeDepth*m.StageLatency
+	base := []uint64{0, 0x4000, 0xfff00000}[r.Intn(3)]
+	mkop := func(addr uint64, write bool) memasm.Op {
+		if !write {
+			return memasm.Op{Kind: "R", Addr: addr, Size: 1 + r.U64n(4)}
+		}
+		n := 1 + r.Intn(4)
+		d := r.Bytes(n)
+		return memasm.Op{Kind: "W", Addr: addr, Data: d}
+	}
+	for g := 0; g <= maxGap; g++ {
+		la := base + uint64(g)*line*uint64(1+r.Intn(3))
+		if recool {
+			cfg.Script = append(cfg.Script,
+				memasm.Op{Kind: "C", Cmd: "pause", Target: "L0", Barrier: true},
+				memasm.Op{Kind: "C", Cmd: "invalidate", Target: "L0", Barrier: true},
+				memasm.Op{Kind: "C", Cmd: "enable", Target: "L0", Barrier: true})
+		}
+		first := mkop(la, r.Chance(1, 3))
+		first.Barrier = true
+		second := mkop(la+line/2+r.U64n(line/2-4), r.Chance(1, 3))
+		if ctrlInWindow {
+			second.Delay = r.Intn(4)
+			cfg.Script = append(cfg.Script, first,
+				memasm.Op{Kind: "C", Cmd: "pause", Target: "L0", Delay: g},
+				memasm.Op{Kind: "C", Cmd: "invalidate", Target: "L0"},
+				memasm.Op{Kind: "C", Cmd: "enable", Target: "L0"},
+				second)
+		} else {
+			second.Delay = g
+			cfg.Script = append(cfg.Script, first, second)
+		}
+	}
+	return cfg
+}
+
 func gen(r *hx.Rand, tier string) []json.RawMessage {
 	nk, na := 90, 70
 	if tier == "thorough" {
@@ -370,6 +447,19 @@ func gen(r *hx.Rand, tier string) []json.RawMessage {
 		}
 		add(input{Kind: "asm", Cfg: &cfg, Every: 1 + r.Intn(12)})
 	}
+	// directed window sweeps: every gap between a miss and a same-line re-access, cold and re-cooled caches
+	nw := 2
+	if tier == "thorough" {
+		nw = 12
+	}
+	for i := 0; i < nw; i++ {
+		for _, k := range kinds {
+			for v := 0; v < 3; v++ {
+				cfg := windowSweep(r, k, v == 1, v == 2)
+				add(input{Kind: "asm", Cfg: &cfg, Every: 1, Dense: true})
+			}
+		}
+	}
 	return out
 }
 
@@ -408,6 +498,9 @@ func init() {
 			"1/6 with a fully busy set). asm: dir_wf evaluated on directory snapshots of real write-back/write-around/write-evict/write-through " +
 			"caches (1-2 levels over ideal/banked/DRAM) sampled every 1..12 engine events of a random workload (40-100 ops, masks, PIDs 0..2), " +
 			"half of them with control histories (pause|drain -> invalidate|flush with filters -> enable, reset) among live traffic. " +
+			"window sweeps (dense: dir_wf on EVERY distinct state after every handled event): pairs of same-line, different-byte accesses, the second issued g ticks " +
+			"after the first for every g in 0..(fill latency + bank latency + margin), on a cold 8x4 cache, on a 1-2x2 cache paused+invalidated+enabled before every pair, " +
+			"and with the pause/invalidate/enable issued inside the window; all four cache kinds, bank latency 1/2/5/8. " +
 			"Non-trivial: kernel call that did not panic / run with >= 8 distinct directory states. Distinct = distinct input hash.",
 		Gen: gen, Run: run, Shrink: shrink,
 	})
